@@ -81,9 +81,11 @@ func (c *Connection) handleCallReq(frame *Frame) bool {
 
 	// Close may have been called between the time we checked the state and us creating the exchange.
 	// The call is refused like any other call arriving on a closing connection, not silently dropped.
+	// The refusal is queued before the exchange is released: releasing the only
+	// exchange of a draining connection closes it.
 	if c.readState() != connectionActive {
-		mex.shutdown()
 		c.SendSystemError(frame.Header.ID, callReqSpan(frame), ErrChannelClosed)
+		mex.shutdown()
 		return true
 	}
 
